@@ -33,10 +33,17 @@ extern "C" void vp_thread2() {       // writer
 #else
   bool r = m->erase(WK); vp_assert(r, 4);
 #endif
+#ifdef W_THEN_EMPLACE
+  // the freed extension item / array slot is recycled for a new key while the reader may still stand on it
+  bool r2 = m->emplace(NKEYS + 1, (NKEYS + 1) * 10); vp_assert(r2, 5);
+#endif
   vp_cover(2);
 }
 extern "C" void vp_final() {
   M::accessor a;
   vp_assert(!m->try_get_value(WK, a), 10);
   for (int k = 1; k <= NKEYS; ++k) if (k != WK) { M::accessor b; bool r = m->try_get_value(k, b); vp_assert(r && *b == k * 10, 11); }
+#ifdef W_THEN_EMPLACE
+  { M::accessor c; bool r = m->try_get_value(NKEYS + 1, c); vp_assert(r && *c == (NKEYS + 1) * 10, 12); }
+#endif
 }
